@@ -22,6 +22,13 @@ import TlsModel.Msgs
 -/
 open Tls Tls.Fmt Tls.Codec
 
+/-- hex reader that copes with multi-megabyte strings (`Tls.ofHex` recurses once per byte) -/
+def ofHexT (s : String) : Option Bytes :=
+  if s == "-" then some []
+  else
+    let (b, rest) := readHex s.toList []
+    if rest.isEmpty then some b else none
+
 def natList? (s : String) : Option (List Nat) :=
   if s == "-" then some [] else (s.splitOn ",").mapM (·.toNat?)
 
@@ -106,13 +113,13 @@ def handle : List String → Option String
     | some b => some ("ok " ++ hexOut b)
     | none => some (if shape m.fmt 0 v then "overflow" else "shape")
   | ["dec", name, hex] => do
-    let b ← ofHex hex
+    let b ← ofHexT hex
     let m ← fmtOf name (some b) none
     match m.decode b with
     | .ok (v, r) => some ("ok " ++ v.render ++ " " ++ toString r.length)
     | .error _ => some "decode_error"
   | ["lens", name, hex] => do
-    let b ← ofHex hex
+    let b ← ofHexT hex
     let m ← fmtOf name (some b) none
     match lenFields m.fmt 0 0 b with
     | some (l, _, _) =>
@@ -138,21 +145,21 @@ def handle : List String → Option String
     let m ← fmtOf name none (some v)
     some (toString (encLen m.fmt 0 v))
   | ["w", "add", w, x, n] => do
-    some (wOut (Writer.add (← ofHex w) (← x.toNat?) (← n.toNat?)))
-  | ["w", "one", w, x] => do some (wOut (Writer.addOne (← ofHex w) (← x.toNat?)))
-  | ["w", "two", w, x] => do some (wOut (Writer.addTwo (← ofHex w) (← x.toNat?)))
-  | ["w", "three", w, x] => do some (wOut (Writer.addThree (← ofHex w) (← x.toNat?)))
-  | ["w", "four", w, x] => do some (wOut (Writer.addFour (← ofHex w) (← x.toNat?)))
+    some (wOut (Writer.add (← ofHexT w) (← x.toNat?) (← n.toNat?)))
+  | ["w", "one", w, x] => do some (wOut (Writer.addOne (← ofHexT w) (← x.toNat?)))
+  | ["w", "two", w, x] => do some (wOut (Writer.addTwo (← ofHexT w) (← x.toNat?)))
+  | ["w", "three", w, x] => do some (wOut (Writer.addThree (← ofHexT w) (← x.toNat?)))
+  | ["w", "four", w, x] => do some (wOut (Writer.addFour (← ofHexT w) (← x.toNat?)))
   | ["w", "fixseq", w, n, xs] => do
-    some (wOut (Writer.addFixSeq (← ofHex w) (← natList? xs) (← n.toNat?)))
+    some (wOut (Writer.addFixSeq (← ofHexT w) (← natList? xs) (← n.toNat?)))
   | ["w", "varseq", w, n, ll, xs] => do
-    some (wOut (Writer.addVarSeq (← ofHex w) (← natList? xs) (← n.toNat?) (← ll.toNat?)))
+    some (wOut (Writer.addVarSeq (← ofHexT w) (← natList? xs) (← n.toNat?) (← ll.toNat?)))
   | ["w", "vartuple", w, n, ll, ts] => do
-    some (wOut (Writer.addVarTupleSeq (← ofHex w) (← tupleList? ts) (← n.toNat?) (← ll.toNat?)))
+    some (wOut (Writer.addVarTupleSeq (← ofHexT w) (← tupleList? ts) (← n.toNat?) (← ll.toNat?)))
   | ["w", "varbytes", w, ll, d] => do
-    some (wOut (Writer.addVarBytes (← ofHex w) (← ofHex d) (← ll.toNat?)))
+    some (wOut (Writer.addVarBytes (← ofHexT w) (← ofHexT d) (← ll.toNat?)))
   | "p" :: hex :: ops => do
-    let b ← ofHex hex
+    let b ← ofHexT hex
     pRun (Parser.new b) ops []
   | _ => none
 
